@@ -116,6 +116,7 @@ var zooTemplates = []string{
 }
 
 var reMacroDef = regexp.MustCompile(`macro\s+([A-Za-z_][A-Za-z0-9_]*)`)
+var reEndMacroTag = regexp.MustCompile(`\{%-?\s*endmacro\s*-?%\}`)
 
 // mayRecurse over-approximates "the template can re-enter itself": it names itself, or a macro body mentions
 // _self or calls a macro defined in the same source.
@@ -133,8 +134,8 @@ func mayRecurse(src string) bool {
 	}
 	for _, d := range defs {
 		body := src[d[1]:]
-		if k := strings.Index(body, "endmacro"); k >= 0 {
-			body = body[:k]
+		if loc := reEndMacroTag.FindStringIndex(body); loc != nil { // only a well-formed tag ends the body
+			body = body[:loc[0]]
 		}
 		if strings.Contains(body, "_self") {
 			return true
